@@ -2,6 +2,8 @@ import LpModel.DriverLib
 import LpModel.C08
 open Lp Lp.Interp Lp.C09 Lp.C08
 
+instance : SqrtFn := Lp.C08.driverSqrt
+
 /-- op tokens: `I x` `D x k` `G a b` `m a b` `M a b` `gm` `gM` `L x` `P p` `X p` `C` -/
 def pOp : P Op := do
   let t ← tok
